@@ -2,7 +2,7 @@
 
 COMMON_TRUST = [
     "rustc nightly macro expander and pretty-printer (-Zunpretty=expanded) reproduce the crate's code",
-    "rewrite rules R1-R12 of tools/rxtract.py (DESIGN.md §3.1) preserve behaviour",
+    "rewrite rules R1-R16 of tools/rxtract.py (DESIGN.md §3.1, §11.1) preserve behaviour",
     "Verus 0.2026.09.13 + bundled Z3; Kani 0.68 / CBMC 6.11 + CaDiCaL",
     "typenum meaning (R6): Uk::U32 == k, LeEqUk bounds Frac::U32 <= k",
 ]
@@ -148,7 +148,7 @@ PROPERTIES = {
     "C11": {
         "level": "proof",
         "must_fail_quick": False,     # the vacuity twins of these units run under the property that owns each unit (and in C11 thorough)
-        "verus_units": ["arith_widen", "arith128", "widediv", "nofrac", "fracops", "round@*", "transc", "leaves", "cmp@*", "fromfixed@*", "fromfloat@*", "wrapping", "traitfwd@*", "intconv", "floatglue", "trig", "cmpfloat@*", "cmpfloatrev@*", "cmpint@*", "cmpintrev@*", "bitops@*", "remint@*", "diveuclid@*"],
+        "verus_units": ["arith_widen", "arith128", "widediv", "nofrac", "fracops", "round@*", "transc", "log2inner", "sqrtacc", "leaves", "cmp@*", "fromfixed@*", "fromfloat@*", "wrapping", "traitfwd@*", "intconv", "floatglue", "trig", "cmpfloat@*", "cmpfloatrev@*", "cmpint@*", "cmpintrev@*", "bitops@*", "remint@*", "diveuclid@*"],
         "kani": [{"harness": h, "classes": ["panic"]} for h in
                  _mods("arith8", ["i4f4", "i0f8", "u4f4", "u0f8"], FORMS) + ["arith8::abs_forms_i8"] + TFH
                  + ["float::check_to_f32", "float::check_to_f64", "float::check_kind_f32", "float::check_kind_f64"]
@@ -188,20 +188,24 @@ PROPERTIES = {
     },
     "C12": {
         "level": "proof",
-        "verus_units": ["transc", "fracops", "nofrac", "trig"],
+        "verus_units": ["transc", "log2inner", "fracops", "nofrac", "trig"],
         "kani": ["transc::const_values", "transc::exp_i9f23", "transc::sin_i9f23", "transc::cos_i9f23", "transc::cos_i32f32"],
         "kani_thorough": ["transc::sqrt_i9f23", "transc::log2_i9f23", "transc::ln_i9f23", "transc::sqrt_u9f23", "transc::tan_i9f23",
                           "transc::sin_i32f32", "transc::sin_i64f64", "transc::exp_i32f32"],
         "explanation": "sqrt (Newton-loop invariant), exp, pow, powi, ln, log2 (unit transc) and sin, cos (unit trig: exact range reduction, folding into "
                        "[-pi/2, pi/2], cos for |x| <= 200) verified (Verus) as written, generic over every supported type, against trait-level "
                        "contracts of Fixed: no panic-class obligation remains, Err for non-positive logarithms; the conventions 0^y, x^0, x^1 of "
-                       "pow / powi are postconditions.  tan, cordic_rotation, log2_inner (iterator adapters) by Kani on I9F23 (whole domain "
-                       "resp. |x| <= 200) and on I32F32 / I64F64 for |x| <= 200",
-        "not_covered": ["tan / cordic_rotation / log2_inner (iterator adapters) for types other than I9F23, I32F32, I64F64"],
+                       "pow / powi are postconditions.  log2_inner and rs (unit log2inner, R16) verified generic over every supported type: both loops "
+                       "with invariants (integer-part loop: x < 2^(w-1-count) + 1; fraction loop: 1 <= x <= 2, accumulator below (count+1) 2^i), no "
+                       "panic-class obligation left, result >= 0 — the contract log2 / ln / pow rely on.  tan and cordic_rotation (iterator adapters) by "
+                       "Kani on I9F23 (whole domain resp. |x| <= 200) and on I32F32 / I64F64 for |x| <= 200",
+        "not_covered": ["tan / cordic_rotation (iterator adapters) for types other than I9F23, I32F32, I64F64"],
         "assumptions": ["trait-level contracts of Fixed / FixedSigned are the statements proved for the inherent methods in units nofrac / fracops; "
                         "the trait_delegate! forwarders are not verified",
                         "axioms ax_from_const, ax_from_src, ax_cmp_const (conversions from the I9F23 constants are lossless, cross-type comparison is exact: C04 / C03)",
-                        "log2_inner contract (result >= 0 for operand >= 1) assumed in Verus, covered for I9F23 by kani transc::log2_i9f23"],
+                        "log2_inner contract (result >= 0 for operand >= 1) is assumed in unit transc and proved in unit log2inner (one contract text, contracts/log2inner.inc)",
+                        "axiom ax_bits_ops: D::Bits is the primitive integer behind D, its `+=`, `<<=`, `|=` have Rust's checked semantics (same trust as the prelude specs of core integer methods)",
+                        "R16: `for _i in (0..n).rev()` with an unused loop variable is rendered `for _i in 0..n`"],
     },
     "C13": {
         "level": "proof",
@@ -223,7 +227,7 @@ PROPERTIES = {
     },
     "C17": {
         "level": "proof",
-        "verus_units": ["transc", "trig"],
+        "verus_units": ["transc", "log2inner", "trig"],
         "kani": ["transc::const_values", "transc::exp_i9f23", "transc::sin_i9f23", "transc::cos_i9f23", "transc::cos_i32f32",
                  {"harness": "transc::sin_ticks_i9f23_whole_domain", "unwind_is_violation": True}],
         "kani_thorough": ["transc::sqrt_i9f23", "transc::log2_i9f23", "transc::ln_i9f23", "transc::sqrt_u9f23", "transc::tan_i9f23",
@@ -231,11 +235,12 @@ PROPERTIES = {
                           {"harness": "transc::sin_ticks_i32f32_whole_domain", "unwind_is_violation": True}],
         "explanation": "Verus (generic over every supported type): sqrt, exp and sin carry a ghost iteration counter (R14) that every loop body "
                        "increments; each loop has an invariant bounding it (for-loops: in step with the loop variable; the two range-reduction "
-                       "loops of sin: at most one round each after the exact remainder) and `assert(vticks <= 4 * w + 64)` stands at every exit; "
+                       "loops of sin: at most one round each after the exact remainder) and `assert(vticks <= 4 * w + 64)` stands at every exit "
+                       "(log2_inner: both loops together at most 2 w + 2, the integer-part loop by a halving invariant); "
                        "while / loop loops get `decreases bound - vticks`.  ln, log2, pow, cos have no loops of their own.  Kani: every harness "
                        "reads the hook iteration counter after the call and asserts ticks <= 4 * width + 64 (loops closed by unwinding assertions)",
-        "not_covered": ["log2_inner and cordic_rotation (iterator adapters): iteration counts by Kani on I9F23 / I32F32 / I64F64 only, assumed (25 resp. "
-                        "not counted) in the Verus units; the counter of a caller includes a callee's loops only where the template adds them at the call site"],
+        "not_covered": ["cordic_rotation (iterator adapters): iteration count by Kani on I9F23 / I32F32 / I64F64 only, assumed (25) in unit trig; log2_inner's own "
+                        "counter is bounded by 2 w + 2 in unit log2inner, but the counter of a caller (log2, ln, pow) includes a callee's loops only where the template adds them at the call site"],
     },
     "C18": {
         "level": "proof",
